@@ -423,7 +423,7 @@ Section Phase.
     rewrite zrange2_even, zrange2_odd. unfold pvb.
     replace (2 * n)%nat with (n + n)%nat by lia. rewrite seq_app, map_app. cbn [Nat.add]. f_equal.
     - apply map_ext_in. intros q Hq. apply in_seq in Hq. ncases.
-    - rewrite map_seq_shift. apply map_ext_in. intros q Hq. apply in_seq in Hq. ncases.
+    - rewrite (map_seq_shift _ n n). apply map_ext_in. intros q Hq. apply in_seq in Hq. ncases.
   Qed.
 
   Theorem phase_build_WF :
@@ -463,3 +463,154 @@ Section Phase.
         intros b Hb. apply In_map_seq_g in Hb. destruct Hb as [q [Hq ->]]. ncases.
   Qed.
 End Phase.
+
+(* ================================================================== PrepareGate *)
+Section Prep.
+  Variables (n : nat) (tr : bool).
+
+  Definition mkk (j : nat) (a : list Z) : tensor := mkT (Z.of_nat j) [2]%nat a REF_ket0.
+  Definition krow (i : nat) : list Z := [Z.of_nat n + Z.of_nat i].
+  Definition qvb : list Z := if negb tr then zseq (2 * n) else map Z.of_nat (seq n n) ++ zseq n.
+  Definition TQr (k : nat) : dict tensor :=
+    (0, mkT 0 (repeat 2%nat n) (zseq n) REF_main) :: tens mkk 1 (map krow (seq 0 k)).
+  Definition TQ : dict tensor := TQr n ++ [(-1, mkT (-1) (repeat 2%nat (2 * n)) qvb REF_none)].
+
+  Lemma krows_length k : length (map krow (seq 0 k)) = k.
+  Proof. rewrite map_length, seq_length. reflexivity. Qed.
+
+  Lemma qvb_cnt kb : zcount kb qvb = if (0 <=? kb) && (kb <? Z.of_nat (2 * n)) then 1%nat else 0%nat.
+  Proof.
+    unfold qvb. destruct tr; cbn [negb]; [|apply zcount_zseq].
+    rewrite zcount_app, zcount_zseq.
+    assert (A : zcount kb (map Z.of_nat (seq n n))
+                = if (Z.of_nat n <=? kb) && (kb <? Z.of_nat (2 * n)) then 1%nat else 0%nat).
+    { destruct (Z.leb_spec (Z.of_nat n) kb), (Z.ltb_spec kb (Z.of_nat (2 * n))); cbn [andb].
+      - apply (zcount_map_seq_1 kb Z.of_nat n n (Z.to_nat kb)); lia.
+      - apply zcount_map_seq_0. intros q Hq. lia.
+      - apply zcount_map_seq_0. intros q Hq. lia.
+      - apply zcount_map_seq_0. intros q Hq. lia. }
+    rewrite A. zcases.
+  Qed.
+
+  Lemma cT_TQ k' kb :
+    cT TQ k' kb = if k' =? 0 then zcount kb (zseq n)
+                  else if (1 <=? k') && (k' <? Z.of_nat (1 + n)) then zcount kb (krow (Z.to_nat k' - 1))
+                  else if k' =? -1 then zcount kb qvb else 0%nat.
+  Proof.
+    unfold cT, TQ, TQr. rewrite <- app_comm_cons. cbn [dget]. destruct (Z.eqb_spec k' 0); [reflexivity|].
+    rewrite dget_app, dget_tens, krows_length. cbn [Z.of_nat].
+    destruct (Z.leb_spec 1 k'), (Z.ltb_spec k' (Z.of_nat (1 + n))); cbn [andb].
+    - cbn [mkk t_bids]. rewrite nth_map_seq by lia. reflexivity.
+    - cbn [dget]. destruct (k' =? -1); reflexivity.
+    - cbn [dget]. destruct (k' =? -1); reflexivity.
+    - cbn [dget]. destruct (k' =? -1); reflexivity.
+  Qed.
+
+  Definition PQ1 (k : nat) (st : bst) : Prop := st = mkS (TQr k) [] 0 true.
+  Definition PQ2 (k : nat) (st : bst) : Prop := exists B, st = mkS TQ B 0 true /\ Inv TQ B k.
+  Definition PQ3 (k : nat) (st : bst) : Prop := exists B, st = mkS TQ B 0 true /\ Inv TQ B (n + k).
+
+  Definition qbody1 (i : Z) (st : bst) : bst :=
+    let st := new_tensor st (1 + i) [2%nat] [Z.of_nat n + i] REF_ket0 in st.
+  Definition qbody2 (i : Z) (st : bst) : bst := let st := add_bond st i [-1; 0] in st.
+  Definition qbody3 (i : Z) (st : bst) : bst := let st := add_bond st (Z.of_nat n + i) [-1; 1 + i] in st.
+
+  Lemma qstep1 k st : (k < n)%nat -> PQ1 k st -> PQ1 (S k) (qbody1 (Z.of_nat (0 + k)) st).
+  Proof.
+    intros Hk ->. unfold PQ1, qbody1. cbn [Nat.add].
+    rewrite new_tensor_ok; [|reflexivity|].
+    - unfold TQr. rewrite seq_S, map_app. cbn [map Nat.add]. rewrite tens_app, krows_length.
+      rewrite <- app_comm_cons. unfold mkk, krow. repeat f_equal; lia.
+    - unfold TQr. rewrite dget_cons_ne by lia. rewrite dget_tens, krows_length.
+      destruct (Z.ltb_spec (1 + Z.of_nat k) (Z.of_nat (1 + k))); [lia|]. rewrite andb_false_r. reflexivity.
+  Qed.
+
+  Lemma qstep2 k st : (k < n)%nat -> PQ2 k st -> PQ2 (S k) (qbody2 (Z.of_nat (0 + k)) st).
+  Proof.
+    intros Hk [B [-> I]]. unfold qbody2. cbn [Nat.add].
+    rewrite add_bond_ok by (cbn [length]; try lia; apply (Inv_fresh' _ _ _ I)).
+    exists (B ++ bonds_of k [[-1; 0]]). split; [reflexivity|].
+    replace (S k) with (k + length [[-1; 0]%Z])%nat by (cbn [length]; lia).
+    apply (Inv_adds _ _ _ _ _ I).
+    - intros L [<-|[]]. cbn. lia.
+    - reflexivity.
+    - intros [|j] k' Hj; [|cbn in Hj; lia]. rewrite Nat.add_0_r. cbn [nth]. rewrite cT_TQ, zcount_zseq, qvb_cnt. smallcount.
+      unfold krow. smallcount. zcases.
+  Qed.
+
+  Lemma qstep3 k st : (k < n)%nat -> PQ3 k st -> PQ3 (S k) (qbody3 (Z.of_nat (0 + k)) st).
+  Proof.
+    intros Hk [B [-> I]]. unfold qbody3. cbn [Nat.add].
+    replace (Z.of_nat n + Z.of_nat k) with (Z.of_nat (n + k)) by lia.
+    rewrite add_bond_ok by (cbn [length]; try lia; apply (Inv_fresh' _ _ _ I)).
+    exists (B ++ bonds_of (n + k) [[-1; 1 + Z.of_nat k]]). split; [reflexivity|].
+    replace (n + S k)%nat with (n + k + length [[-1; 1 + Z.of_nat k]%Z])%nat by (cbn [length]; lia).
+    apply (Inv_adds _ _ _ _ _ I).
+    - intros L [<-|[]]. cbn. lia.
+    - reflexivity.
+    - intros [|j] k' Hj; [|cbn in Hj; lia]. rewrite Nat.add_0_r. cbn [nth]. rewrite cT_TQ, zcount_zseq, qvb_cnt. smallcount.
+      unfold krow. smallcount. zcases.
+  Qed.
+
+  Theorem prep_build_WF :
+    exists B, prep_build (Z.of_nat n) tr = mkS TQ B 0 true /\ dkeys B = zseq (2 * n) /\ WF (mkN TQ B).
+  Proof.
+    change (prep_build (Z.of_nat n) tr) with
+      (zfor 0 (Z.of_nat n) qbody3
+         (zfor 0 (Z.of_nat n) qbody2
+            (new_tensor
+               (zfor 0 (Z.of_nat n) qbody1
+                  (new_tensor st0 0 (zrep 2%nat (Z.of_nat n)) (zrange 0 (Z.of_nat n)) REF_main))
+               (-1) (zrep 2%nat (2 * Z.of_nat n))
+               (if negb tr then zrange 0 (2 * Z.of_nat n)
+                else zrange (Z.of_nat n) (2 * Z.of_nat n) ++ zrange 0 (Z.of_nat n)) REF_none))).
+    unfold st0. rewrite zrep_nat, zrange_0.
+    rewrite new_tensor_ok; [|rewrite repeat_length, zseq_length; reflexivity | reflexivity].
+    cbn [app].
+    assert (H1 : PQ1 n (zfor 0 (Z.of_nat n) qbody1 (mkS [(0, mkT 0 (repeat 2%nat n) (zseq n) REF_main)] [] 0 true))).
+    { rewrite (zfor_nat 0 n). apply (fold_seq_ind PQ1 (fun i s => qbody1 (Z.of_nat i) s) 0 n); [reflexivity|].
+      intros k s Hk P. apply qstep1; assumption. }
+    rewrite H1.
+    assert (EV : (if negb tr then zrange 0 (2 * Z.of_nat n)
+                  else zrange (Z.of_nat n) (2 * Z.of_nat n) ++ zrange 0 (Z.of_nat n)) = qvb).
+    { unfold qvb. destruct tr; cbn [negb].
+      - replace (2 * Z.of_nat n) with (Z.of_nat (n + n)) by lia. rewrite zrange_nat, zrange_0. reflexivity.
+      - replace (2 * Z.of_nat n) with (Z.of_nat (2 * n)) by lia. apply zrange_0. }
+    rewrite EV.
+    replace (zrep 2%nat (2 * Z.of_nat n)) with (repeat 2%nat (2 * n)) by (unfold zrep; f_equal; lia).
+    rewrite new_tensor_ok.
+    2:{ rewrite repeat_length. unfold qvb. destruct tr; cbn [negb]; rewrite ?app_length, ?map_length, ?seq_length, ?zseq_length; lia. }
+    2:{ unfold TQr. rewrite dget_cons_ne by lia. rewrite dget_tens. reflexivity. }
+    fold TQ.
+    assert (H2 : PQ2 n (zfor 0 (Z.of_nat n) qbody2 (mkS TQ [] 0 true))).
+    { rewrite (zfor_nat 0 n). apply (fold_seq_ind PQ2 (fun i s => qbody2 (Z.of_nat i) s) 0 n).
+      - exists []. split; [reflexivity | apply Inv_init].
+      - intros k s Hk P. apply qstep2; assumption. }
+    assert (H3 : PQ3 n (zfor 0 (Z.of_nat n) qbody3 (zfor 0 (Z.of_nat n) qbody2 (mkS TQ [] 0 true)))).
+    { rewrite (zfor_nat 0 n). apply (fold_seq_ind PQ3 (fun i s => qbody3 (Z.of_nat i) s) 0 n).
+      - destruct H2 as [B [E I]]. exists B. rewrite Nat.add_0_r. split; assumption.
+      - intros k s Hk P. apply qstep3; assumption. }
+    destruct H3 as [B [E I]]. exists B. split; [exact E|].
+    replace (2 * n)%nat with (n + n)%nat by lia. split; [apply (inv_keys _ _ _ I)|].
+    apply (WF_of_Inv _ _ _ I).
+    - unfold TQ, TQr. rewrite dkeys_app. cbn [dkeys map fst]. fold (@dkeys tensor). rewrite dkeys_tens, krows_length.
+      change (0 :: map Z.of_nat (seq 1 n)) with (map Z.of_nat (seq 0 (S n))).
+      apply NoDup_app_disj.
+      + apply FinFun.Injective_map_NoDup; [intros a b E'; lia | apply seq_NoDup].
+      + constructor; [intros [] | constructor].
+      + intros x Hx [<-|[]]. apply In_map_seq_g in Hx. destruct Hx as [q [_ E']]. lia.
+    - unfold TQ. rewrite dkeys_app. apply in_or_app. right. left. reflexivity.
+    - unfold TQ, TQr. intros k t Hin. apply in_app_or in Hin. destruct Hin as [[E'|Hin]|[E'|[]]].
+      + injection E' as <- <-. cbn [t_id t_shape t_bids]. rewrite zseq_length.
+        split; [reflexivity|]. split; [reflexivity|]. intros b Hb. apply In_zseq in Hb. lia.
+      + apply In_tens in Hin. destruct Hin as [j [Hj [-> ->]]]. rewrite krows_length in Hj.
+        rewrite nth_map_seq by lia. cbn [Nat.add mkk krow t_id t_shape t_bids length].
+        split; [reflexivity|]. split; [reflexivity|]. intros b [<-|[]]; lia.
+      + injection E' as <- <-. cbn [t_id t_shape t_bids].
+        assert (L : length qvb = (2 * n)%nat).
+        { unfold qvb. destruct tr; cbn [negb]; rewrite ?app_length, ?map_length, ?seq_length, ?zseq_length; lia. }
+        rewrite L. split; [reflexivity|]. split; [reflexivity|].
+        intros b Hb. pose proof (qvb_cnt b) as Q. apply zcount_pos in Hb.
+        destruct (Z.leb_spec 0 b), (Z.ltb_spec b (Z.of_nat (2 * n))); cbn [andb] in Q; lia.
+  Qed.
+End Prep.
